@@ -528,7 +528,7 @@ func GenDelivery(r *Rng) sim.Delivery {
 	return d
 }
 
-var readerProfiles = []string{sim.ProfR, sim.ProfRB, sim.ProfRS, sim.ProfRSB, sim.ProfRSA, sim.ProfRSAB, sim.ProfPipe}
+var readerProfiles = []string{sim.ProfR, sim.ProfRB, sim.ProfRS, sim.ProfRSB, sim.ProfRSA, sim.ProfRSAB, sim.ProfPipe, sim.ProfBufio}
 
 // ReadOpts are the reader-side options of a medium case.
 type ReadOpts struct {
@@ -540,6 +540,8 @@ type ReadOpts struct {
 	IndexCodec uint64 `json:"index_codec,omitempty"`
 	WholeCIDs  bool   `json:"whole_cids,omitempty"`
 	Trusted    bool   `json:"trusted,omitempty"`
+	// ZeroLimits: both size limits explicitly configured as 0 (nothing fits)
+	ZeroLimits bool `json:"zero_limits,omitempty"`
 }
 
 // MediumSpec is the medium-engine part of a trace.
